@@ -2,7 +2,7 @@
    Property theorems only: each is closed by `exact <lemma>` (lemmas in Proofs/HolmP.v,
    Proofs/PenetranceP.v). *)
 From Coq Require Import ZArith List Bool Arith Lia Permutation Sorted.
-From CTM Require Import Base.Sx Model.Holm Model.Penetrance Proofs.HolmP Proofs.PenetranceP Proofs.BoringP.
+From CTM Require Import Base.Sx Model.Holm Model.Penetrance Model.Stats Model.Welch Model.Sparse Model.Transpose Proofs.HolmP Proofs.PenetranceP Proofs.BoringP Proofs.WelchP Proofs.MarkerTablesP.
 Import ListNotations.
 Open Scope Z_scope.
 
@@ -103,32 +103,43 @@ Proof.
 Qed.
 
 (* The CDF half and the full statement.
-   Vocabulary (Proofs/BoringP.v; S = 2*H is the common denominator of CDF values, p-values and
-   p_th = T/S, so H/S = 0.5; a gene is (nu, t), t an integer over any common denominator):
+   Vocabulary (Model/Welch.v, Proofs/BoringP.v; S = 2*H is the common denominator of CDF values,
+   p-values and p_th = T/S, so H/S = 0.5; a gene is (nu, t), t an integer over any common denominator):
      p_of_cdf H lo hi c  := the code's p-value from a CDF value: NaN (None) -> 0.5, np.clip to
                             [lo, hi] = [eps, ceil], then 2*cdf if cdf < 0.5 else 2*(1 - cdf)
                             (i.e. the two-sided p = 2*min(cdf, 1 - cdf))
      exact_p t_cdf H lo hi (nu, t) := p_of_cdf H lo hi (t_cdf nu t)       (exact_welch_t_test)
      boring b (nu, t)    := not (t < -b or t > b)                          (|t| <= boring_t)
      skip_p ... b g      := p_of_cdf of 0.5 if boring b g else exact_p g   (approximate_welch_t_test)
-   t_cdf : nu -> t -> option Z and norm_cdf : t -> Z stand for scipy.stats.t.cdf / norm.cdf.
-   The premises marked (scipy) are ASSUMPTIONS ABOUT SCIPY'S FUNCTIONS, assumed and not proved:
-     - t.cdf(., nu) is monotone in t,
-     - t.cdf(-t, nu) = 1 - t.cdf(t, nu),
-     - whether t.cdf is NaN depends on nu only,
-     - the Student lower tail is at least the normal one: t.cdf(-x, nu) >= norm.cdf(-x) for x >= 0.
-   The premise T <= 2 * norm_cdf (-b) is how boring_t_from_p_value chooses boring_t (the harness
-   checks it numerically on every run); the others describe the setting (eps <= 0.5 <= ceil <= 1,
-   p_th <= 1, boring_t >= 0). *)
+   t_cdf : nu -> t -> option Z stands for scipy.stats.t.cdf (big_nu = None in both marker routes, so
+   the normal CDF never enters).
+   PREMISES - none of them is proved; each is about the real boring_t / scipy's values and each is
+   evaluated NUMERICALLY BY THE HARNESS on every run (harness/props/c11.py: boring_premises, called
+   for every (t, nu) that occurs in welch_cases, and boring_premise_cases over p_th in
+   [1e-11, 0.0455] x nu in [0.1, 1e6]; a false premise is reported as a violation of class
+   c11-boring-premise-false-on-occurring-value carrying the values):
+     (end_lo)  t_cdf nu (-b) = Some c -> T <= 2*c            2*t.cdf(-boring_t, nu) >= p_th
+     (end_hi)  t_cdf nu b = Some c -> T <= 2*(2H - c)        2*(1 - t.cdf(boring_t, nu)) >= p_th
+     (mono)    t.cdf(., nu) is monotone ON [-boring_t, boring_t]
+     (nan)     whether t.cdf is NaN depends on nu only, on [-boring_t, boring_t]
+   The earlier premise `T <= 2*norm_cdf(-b)` was false of the real function (the audit's table:
+   np.interp overshoots, 2*norm.cdf(-boring_t) = p_th*(1 - 1.4e-6..2.2e-5)) and symmetry of the CDF
+   for every t is false of a saturating binary64 CDF; neither is used any more.  (end_lo)/(end_hi)
+   hold for the real functions exactly as long as nu is below a limit that depends on p_th (measured
+   on every run, evidence key boring_premise_end_lo_holds_up_to_nu: 8.6e6 for p_th = 0.01, 3.2e6
+   for 0.02): beyond it the Student tail is within the interpolation error of the normal one, the
+   premise is false and SO IS THE CONCLUSION - c11_boring_needs_end_lo below and finding finding C11-boring-huge-nu
+   (reproduced with the real score_differential_genes on two clusters of 1e7 cells).  The others
+   describe the setting (eps <= 0.5 <= ceil <= 1, p_th <= 1, boring_t >= 0). *)
 
 (* |t| <= boring_t => the exact two-sided p-value of the gene is >= p_th *)
-Theorem c11_boring_exact_p_ge : forall (H lo hi T b : Z) (t_cdf : Z -> Z -> option Z) (norm_cdf : Z -> Z),
+Theorem c11_boring_exact_p_ge : forall (H lo hi T b : Z) (t_cdf : Z -> Z -> option Z),
   0 < H -> 0 <= lo <= H -> H <= hi <= 2 * H -> T <= 2 * H -> 0 <= b ->
-  T <= 2 * norm_cdf (- b) ->
-  (* scipy *) (forall nu a a' c c', a <= a' -> t_cdf nu a = Some c -> t_cdf nu a' = Some c' -> c <= c') ->
-  (* scipy *) (forall nu a c, t_cdf nu a = Some c -> t_cdf nu (- a) = Some (2 * H - c)) ->
-  (* scipy *) (forall nu a a', t_cdf nu a = None -> t_cdf nu a' = None) ->
-  (* scipy *) (forall nu x c, 0 <= x -> t_cdf nu (- x) = Some c -> norm_cdf (- x) <= c) ->
+  (* end_lo *) (forall nu c, t_cdf nu (- b) = Some c -> T <= 2 * c) ->
+  (* end_hi *) (forall nu c, t_cdf nu b = Some c -> T <= 2 * (2 * H - c)) ->
+  (* scipy *) (forall nu a a' c c', - b <= a -> a <= a' -> a' <= b ->
+                 t_cdf nu a = Some c -> t_cdf nu a' = Some c' -> c <= c') ->
+  (* scipy *) (forall nu a a', - b <= a <= b -> - b <= a' <= b -> t_cdf nu a = None -> t_cdf nu a' = None) ->
   forall nu t, - b <= t <= b -> T <= exact_p t_cdf H lo hi (nu, t).
 Proof. exact boring_exact_ge. Qed.
 Print Assumptions c11_boring_exact_p_ge.
@@ -138,13 +149,13 @@ Print Assumptions c11_boring_exact_p_ge.
    genes are >= p_th; no decision `corrected p < p_th` of the full Holm correction changes, and
    the restricted correction run on the replaced values decides exactly like the full
    correction on the exact values *)
-Theorem c11_boring_t_sound : forall (H lo hi T b : Z) (t_cdf : Z -> Z -> option Z) (norm_cdf : Z -> Z),
+Theorem c11_boring_t_sound : forall (H lo hi T b : Z) (t_cdf : Z -> Z -> option Z),
   0 < H -> 0 <= lo <= H -> H <= hi <= 2 * H -> T <= 2 * H -> 0 <= b ->
-  T <= 2 * norm_cdf (- b) ->
-  (* scipy *) (forall nu a a' c c', a <= a' -> t_cdf nu a = Some c -> t_cdf nu a' = Some c' -> c <= c') ->
-  (* scipy *) (forall nu a c, t_cdf nu a = Some c -> t_cdf nu (- a) = Some (2 * H - c)) ->
-  (* scipy *) (forall nu a a', t_cdf nu a = None -> t_cdf nu a' = None) ->
-  (* scipy *) (forall nu x c, 0 <= x -> t_cdf nu (- x) = Some c -> norm_cdf (- x) <= c) ->
+  (* end_lo *) (forall nu c, t_cdf nu (- b) = Some c -> T <= 2 * c) ->
+  (* end_hi *) (forall nu c, t_cdf nu b = Some c -> T <= 2 * (2 * H - c)) ->
+  (* scipy *) (forall nu a a' c c', - b <= a -> a <= a' -> a' <= b ->
+                 t_cdf nu a = Some c -> t_cdf nu a' = Some c' -> c <= c') ->
+  (* scipy *) (forall nu a a', - b <= a <= b -> - b <= a' <= b -> t_cdf nu a = None -> t_cdf nu a' = None) ->
   forall (genes : list gene) (p' : list Z),
   Forall (fun x => 0 <= x <= 2 * H) p' ->
   Forall2 (fun g v' => if boring b g then T <= v' else v' = exact_p t_cdf H lo hi g) genes p' ->
@@ -157,13 +168,13 @@ Proof. exact boring_t_sound. Qed.
 Print Assumptions c11_boring_t_sound.
 
 (* ... in particular for the values the code uses (cdf = 0.5, hence p = 1, for the skipped genes) *)
-Theorem c11_boring_t_sound_code : forall (H lo hi T b : Z) (t_cdf : Z -> Z -> option Z) (norm_cdf : Z -> Z),
+Theorem c11_boring_t_sound_code : forall (H lo hi T b : Z) (t_cdf : Z -> Z -> option Z),
   0 < H -> 0 <= lo <= H -> H <= hi <= 2 * H -> T <= 2 * H -> 0 <= b ->
-  T <= 2 * norm_cdf (- b) ->
-  (* scipy *) (forall nu a a' c c', a <= a' -> t_cdf nu a = Some c -> t_cdf nu a' = Some c' -> c <= c') ->
-  (* scipy *) (forall nu a c, t_cdf nu a = Some c -> t_cdf nu (- a) = Some (2 * H - c)) ->
-  (* scipy *) (forall nu a a', t_cdf nu a = None -> t_cdf nu a' = None) ->
-  (* scipy *) (forall nu x c, 0 <= x -> t_cdf nu (- x) = Some c -> norm_cdf (- x) <= c) ->
+  (* end_lo *) (forall nu c, t_cdf nu (- b) = Some c -> T <= 2 * c) ->
+  (* end_hi *) (forall nu c, t_cdf nu b = Some c -> T <= 2 * (2 * H - c)) ->
+  (* scipy *) (forall nu a a' c c', - b <= a -> a <= a' -> a' <= b ->
+                 t_cdf nu a = Some c -> t_cdf nu a' = Some c' -> c <= c') ->
+  (* scipy *) (forall nu a a', - b <= a <= b -> - b <= a' <= b -> t_cdf nu a = None -> t_cdf nu a' = None) ->
   forall genes : list gene,
   let p := map (exact_p t_cdf H lo hi) genes in
   let p' := map (skip_p t_cdf H lo hi b) genes in
@@ -173,20 +184,35 @@ Theorem c11_boring_t_sound_code : forall (H lo hi T b : Z) (t_cdf : Z -> Z -> op
 Proof. exact boring_t_sound_code. Qed.
 Print Assumptions c11_boring_t_sound_code.
 
-(* the premises are satisfiable together: a toy pair of CDFs over S = 64 (0.5 = 32/64),
-     t_cdf(t, nu) = clamp(32 + 8t, 1, 63)/64, NaN for nu <= 0;  norm_cdf(t) = clamp(32 + 16t, 0, 64)/64,
+(* end_lo cannot be dropped: with a CDF that is monotone everywhere and boring_t a little too large
+   (2*cdf(-boring_t) < p_th, the situation of the real code against the normal limit at huge nu) the
+   exact route records the single gene at t = -boring_t and the skipping route does not *)
+Theorem c11_boring_needs_end_lo :
+  exists (H lo hi T b : Z) (t_cdf : Z -> Z -> option Z) (genes : list gene),
+    0 < H /\ 0 <= lo <= H /\ H <= hi <= 2 * H /\ T <= 2 * H /\ 0 <= b /\
+    (forall nu a a' c c', a <= a' -> t_cdf nu a = Some c -> t_cdf nu a' = Some c' -> c <= c') /\
+    (forall nu a a', t_cdf nu a = None -> t_cdf nu a' = None) /\
+    ~ (forall nu c, t_cdf nu (- b) = Some c -> T <= 2 * c) /\
+    map (fun v => v <? T) (correct_ttest (2 * H) 0 (map (exact_p t_cdf H lo hi) genes)) = [true] /\
+    map (fun v => v <? T) (approx_correct_ttest (2 * H) T (map (skip_p t_cdf H lo hi b) genes)) = [false].
+Proof. exact boring_unsound_without_end_lo. Qed.
+Print Assumptions c11_boring_needs_end_lo.
+
+(* the premises are satisfiable together: a toy saturating CDF over S = 64 (0.5 = 32/64),
+     t_cdf(t, nu) = clamp(32 + 8t, 1, 63)/64, NaN for nu <= 0,
    clip to [1/64, 63/64], p_th = 20/64, boring_t = 1; five genes: two skipped (t = 0, t = -1:
    exact p = 1 and 48/64, both >= p_th), t = 3 (p = 16/64, not significant after correction),
-   one NaN (p = 1), t = -4 (p = 2/64, significant) *)
+   one NaN (p = 1), t = -4 (p = 2/64, significant).  The premises on REAL values (binary64 numbers
+   of scipy at the real boring_t) are evaluated by the harness, not here. *)
 Example c11_boring_nonvacuous_cdf :
   0 < 32 /\ 0 <= 1 <= 32 /\ 32 <= 63 <= 2 * 32 /\ 20 <= 2 * 32 /\ 0 <= 1 /\
-  20 <= 2 * toy_norm_cdf (- 1) /\
-  (forall nu a a' c c', a <= a' -> toy_t_cdf nu a = Some c -> toy_t_cdf nu a' = Some c' -> c <= c') /\
-  (forall nu a c, toy_t_cdf nu a = Some c -> toy_t_cdf nu (- a) = Some (2 * 32 - c)) /\
-  (forall nu a a', toy_t_cdf nu a = None -> toy_t_cdf nu a' = None) /\
-  (forall nu x c, 0 <= x -> toy_t_cdf nu (- x) = Some c -> toy_norm_cdf (- x) <= c).
+  (forall nu c, toy_t_cdf nu (- 1) = Some c -> 20 <= 2 * c) /\
+  (forall nu c, toy_t_cdf nu 1 = Some c -> 20 <= 2 * (2 * 32 - c)) /\
+  (forall nu a a' c c', - 1 <= a -> a <= a' -> a' <= 1 ->
+      toy_t_cdf nu a = Some c -> toy_t_cdf nu a' = Some c' -> c <= c') /\
+  (forall nu a a', - 1 <= a <= 1 -> - 1 <= a' <= 1 -> toy_t_cdf nu a = None -> toy_t_cdf nu a' = None).
 Proof.
-  destruct toy_hyps as (H1 & H2 & H3 & H4 & H5).
+  destruct toy_hyps as (H1 & H2 & H3 & H4).
   repeat split; try lia; assumption.
 Qed.
 Example c11_boring_nonvacuous_values :
@@ -205,7 +231,10 @@ Proof. cbv zeta. repeat split; vm_compute; reflexivity. Qed.
      crit th exact sc               :=  if exact then strictly_passes th sc else above_floors th sc
      in_list mask g                 :=  no gene list, or gene g belongs to it *)
 
-(* soundness of approx_penetrance_test: an accepted gene is on or above every floor, for
+(* (Since the repair of F8 the floors are applied directly, so this soundness statement is BY
+   CONSTRUCTION OF THE MODEL - is_invalid is the negation of above_floors; its content is in the tie
+   of penetrance_parameter_distance / approx_penetrance_test to the code, tags 1103/1104.)
+   soundness of approx_penetrance_test: an accepted gene is on or above every floor, for
    EVERY setting the code accepts (each strict threshold above its floor), however close the
    floors are to the thresholds, and whichever branch (enough absolutely valid genes or not)
    is taken.  (Before the repair of F8 this needed each threshold >= 1e-5 above its floor.) *)
@@ -251,43 +280,48 @@ Print Assumptions c11_penetrance_complete.
      both clusters have at least n_cells_min cells, its (restricted) Holm-corrected p-value
      is below p_th, it belongs to the gene list, and it is on or above every floor
      (strictly above every strict threshold when exact penetrance is requested).
-   The hypotheses: q1_min_th > -1 (genes outside the list get q1 = -1) and
-   q1_th > q1_min_th (enforced by the code in the approximate mode). *)
-Theorem c11_sound : forall st mask x v up g,
+   The hypotheses: q1_min_th > -1 (genes outside the list get q1 = -1),
+   q1_th > q1_min_th (enforced by the code in the approximate mode) and pair_wf x: the per-gene
+   arrays of the pair have one length (numpy raises ValueError otherwise, the model is total:
+   c11_ragged_pair_is_totalised; pairs computed from a statistics file satisfy it:
+   c11_stats_pair_wf).  Here the raw p-values, scores and means are INPUTS of the pair; they are
+   computed from the statistics in c11_sound_from_stats below. *)
+Theorem c11_sound : forall st mask x v up g, pair_wf x ->
   - st_S st < q1_min (st_th st) -> q1_min (st_th st) < q1_th (st_th st) ->
   score_differential_genes st mask x = POk (v, up) -> nth_error v g = Some true ->
   st_n_min st <= pi_n1 x /\ st_n_min st <= pi_n2 x /\
   (exists a, nth_error (approx_correct_ttest (pi_SP x) (pi_T x) (pi_p x)) g = Some a /\ a < pi_T x) /\
   in_list mask g /\
   exists sc, nth_error (pi_scores x) g = Some sc /\ crit (st_th st) (st_exact st) sc.
-Proof. exact sdg_sound. Qed.
+Proof. exact sdg_sound_wf. Qed.
 Print Assumptions c11_sound.
 
 (* Completeness: a gene of the list whose corrected p-value is below p_th and which passes
    the three strict thresholds is recorded — in the first pass and in the relaxed second one *)
-Theorem c11_complete : forall st mask x v up g sc,
-  0 < st_S st -> length (pi_mean1 x) = length (pi_scores x) ->
+Theorem c11_complete : forall st mask x v up g sc, pair_wf x ->
+  0 < st_S st ->
   score_differential_genes st mask x = POk (v, up) ->
   st_n_min st <= pi_n1 x -> st_n_min st <= pi_n2 x ->
   (exists a, nth_error (approx_correct_ttest (pi_SP x) (pi_T x) (pi_p x)) g = Some a /\ a < pi_T x) ->
   in_list mask g ->
   nth_error (pi_scores x) g = Some sc -> strictly_passes (st_th st) sc ->
   nth_error v g = Some true.
-Proof. exact sdg_complete. Qed.
+Proof. exact sdg_complete_wf. Qed.
 Print Assumptions c11_complete.
 
-(* with exact penetrance requested nothing else is recorded *)
-Theorem c11_exact_iff : forall st mask x v up g,
+(* with exact penetrance requested nothing else is recorded.  (In exact mode the model's validity
+   IS the conjunction on the right - the equivalence is by construction of the model; its content is
+   in the tie of score_differential_genes with exact_penetrance=True, tag 1105 / 1152.) *)
+Theorem c11_exact_iff : forall st mask x v up g, pair_wf x ->
   st_exact st = true ->
   - st_S st < q1_min (st_th st) -> q1_min (st_th st) < q1_th (st_th st) -> 0 < st_S st ->
-  length (pi_mean1 x) = length (pi_scores x) ->
   score_differential_genes st mask x = POk (v, up) ->
   (nth_error v g = Some true <->
    st_n_min st <= pi_n1 x /\ st_n_min st <= pi_n2 x /\
    (exists a, nth_error (approx_correct_ttest (pi_SP x) (pi_T x) (pi_p x)) g = Some a /\ a < pi_T x) /\
    in_list mask g /\
    exists sc, nth_error (pi_scores x) g = Some sc /\ strictly_passes (st_th st) sc).
-Proof. exact sdg_exact_iff. Qed.
+Proof. exact sdg_exact_iff_wf. Qed.
 Print Assumptions c11_exact_iff.
 
 Definition c11_st : settings :=
@@ -297,6 +331,7 @@ Definition c11_x : pair_in :=
              [(900, 800, 2048); (900, 800, 2048); (300, 200, 900); (50, 800, 2048)]
              [0; 0; 900; 2048] [2048; 2048; 0; 0].
 Example c11_sound_complete_nonvacuous :
+  pair_wf c11_x /\
   - st_S c11_st < q1_min (st_th c11_st) /\
   q1_min (st_th c11_st) < q1_th (st_th c11_st) /\
   score_differential_genes c11_st None c11_x = POk ([true; false; true; false], [true; true; false; false]) /\
@@ -305,13 +340,50 @@ Example c11_sound_complete_nonvacuous :
   strictly_passes (st_th c11_st) (900, 800, 2048) /\ above_floors (st_th c11_st) (300, 200, 900) /\
   ~ strictly_passes (st_th c11_st) (300, 200, 900) /\ ~ above_floors (st_th c11_st) (50, 800, 2048).
 Proof.
-  split; [cbn; lia|]. split; [cbn; lia|].
+  split; [repeat split|]. split; [cbn; lia|]. split; [cbn; lia|].
   split; [vm_compute; reflexivity|].
   unfold strictly_passes, above_floors; cbn. repeat split; lia.
 Qed.
 
+(* the inputs the two hypotheses exclude are totalised by the model, not accepted by the code:
+   arrays of different lengths (numpy: ValueError) and zero workers (ZeroDivisionError); the harness
+   (totalisation_cases) checks on every run that the real functions raise there *)
+Example c11_ragged_pair_is_totalised :
+  let x := mk_pair_in 3 2 1024 10 [1] [(900, 800, 2048); (900, 800, 2048)] [0] [2048; 2048; 7] in
+  ~ pair_wf x /\ score_differential_genes c11_st None x = POk ([true], [true]).
+Proof. cbv zeta. split; [intros (A & _); discriminate A | vm_compute; reflexivity]. Qed.
+Example c11_zero_workers_is_totalised : n_per_of 100 0 = 8%nat.
+Proof. exact n_per_of_zero_workers. Qed.
+
+(* exact penetrance with a gene list: gene 0 strictly passes and is listed; gene 1 fails the p-value;
+   gene 2 is only above the floors; gene 3 strictly passes but is NOT in the list *)
+Example c11_exact_mode_gene_list_nonvacuous :
+  let st := mk_settings 1024 (mk_th 512 102 717 102 1024 819) 2 true 3 1 in
+  let x := mk_pair_in 3 2 1024 10 [1; 600; 2; 1]
+             [(900, 800, 2048); (900, 800, 2048); (300, 200, 900); (900, 800, 2048)]
+             [0; 0; 900; 2048] [2048; 2048; 0; 0] in
+  pair_wf x /\ st_exact st = true /\
+  score_differential_genes st (Some [true; true; true; false]) x
+  = POk ([true; false; false; false], [true; true; false; false]) /\
+  score_differential_genes st None x = POk ([true; false; false; true], [true; true; false; false]).
+Proof. cbv zeta. split; [repeat split|]. split; [reflexivity|]. split; vm_compute; reflexivity. Qed.
+
+(* the second, relaxed pass: n_valid = 2, n_valid_min = 2.  First pass: genes 0 and 1 are absolutely
+   valid (2 >= n_valid, no relaxation) but gene 1 fails the p-value: 1 valid gene < n_valid_min.
+   Second pass with the p-value failures masked out: only gene 0 is absolutely valid (1 < n_valid),
+   the relaxation admits gene 2 (above the floors).  With n_valid_min = 1 the first pass is final. *)
+Example c11_second_pass_nonvacuous :
+  let x := mk_pair_in 3 2 1024 10 [1; 600; 2] [(900, 800, 2048); (900, 800, 2048); (300, 200, 900)]
+                      [0; 0; 900] [2048; 2048; 0] in
+  let th := mk_th 512 102 717 102 1024 819 in
+  score_differential_genes (mk_settings 1024 th 2 false 2 2) None x = POk ([true; false; true], [true; true; false]) /\
+  score_differential_genes (mk_settings 1024 th 2 false 2 1) None x = POk ([true; false; false], [true; true; false]).
+Proof. cbv zeta. split; vm_compute; reflexivity. Qed.
+
 (* ------------------------------------------------------------------ *)
-(* direction = sign of the difference of the mean log2(CPM+1) *)
+(* direction = sign of the difference of the mean log2(CPM+1).  The first conjunct is by
+   construction of the model (up_mask is defined so); the content is in the tie (tags 1105, 1152: the
+   means are sum / max(1, n) computed from the statistics) and in the second conjunct + c11_pair_swap. *)
 Theorem c11_direction : forall st mask x v up,
   score_differential_genes st mask x = POk (v, up) ->
   (pi_n1 x <? st_n_min st) || (pi_n2 x <? st_n_min st) = false ->
@@ -339,20 +411,23 @@ Theorem c11_up_down_cover : forall v u g, length u = length v ->
 Proof. exact up_down_cover. Qed.
 Print Assumptions c11_up_down_cover.
 
-(* swapping the two clusters of a pair (cell counts and means exchanged; p-values, q1, qdiff
-   and |fold| are symmetric) leaves the validity mask unchanged and flips the direction of
+(* swapping the two clusters of a pair.  swap_pair exchanges cell counts and means and KEEPS the raw
+   p-values and the scores: that these are symmetric is no longer assumed but proved from the
+   statistics - c11_welch_swap_statistic (t -> -t, same t^2 and nu), c11_welch_swap_scores (q1, qdiff,
+   |fold| equal as numbers), c11_welch_swap_p (same p-value when t.cdf(-t) = 1 - t.cdf(t) and no clipping;
+   with clipping the two p-values differ, c11_welch_swap_p_clip_caveat, both being <= 2*(1 - ceil)).
+   Given that, the swap leaves the validity mask unchanged and flips the direction of
    every recorded gene, given log2_fold_min_th > 0 and log2_fold = |mean1 - mean2| *)
-Theorem c11_pair_swap : forall st mask x v up g,
+Theorem c11_pair_swap : forall st mask x v up g, pair_wf x ->
   - st_S st < q1_min (st_th st) -> q1_min (st_th st) < q1_th (st_th st) ->
   0 < fold_min (st_th st) -> fold_min (st_th st) < fold_th (st_th st) ->
-  length (pi_mean1 x) = length (pi_mean2 x) ->
   (forall g q1 qd f m1 m2, nth_error (pi_scores x) g = Some (q1, qd, f) ->
        nth_error (pi_mean1 x) g = Some m1 -> nth_error (pi_mean2 x) g = Some m2 -> f = Z.abs (m1 - m2)) ->
   score_differential_genes st mask x = POk (v, up) ->
   exists up', score_differential_genes st mask (swap_pair x) = POk (v, up') /\
     (nth_error v g = Some true ->
      forall b, nth_error up g = Some b -> nth_error up' g = Some (negb b)).
-Proof. exact sdg_pair_swap. Qed.
+Proof. exact sdg_pair_swap_wf. Qed.
 Print Assumptions c11_pair_swap.
 
 Example c11_pair_swap_nonvacuous :
@@ -371,9 +446,11 @@ Proof. exact chunk_merge. Qed.
 Print Assumptions c11_chunk_merge.
 
 (* hence the pair-major tables do not depend on the worker count *)
-Theorem c11_worker_independent : forall st gn gl np np' pairs,
+(* 1 <= n_processors: with 0 the code raises ZeroDivisionError (n_pairs // (2*n_processors)) where
+   the model's Z division gives n_per = 8 (c11_zero_workers_is_totalised) *)
+Theorem c11_worker_independent : forall st gn gl np np' pairs, (1 <= np)%nat -> (1 <= np')%nat ->
   find_markers st gn gl np pairs = find_markers st gn gl np' pairs.
-Proof. exact find_markers_workers. Qed.
+Proof. exact find_markers_workers_pos. Qed.
 Print Assumptions c11_worker_independent.
 
 (* the tables are written for EVERY outcome of the per-pair scoring (F17 repaired: a direction
@@ -400,6 +477,15 @@ Example c11_no_up_direction_nonvacuous :
                       [2048; 2048; 900] [0; 0; 0] in
   find_markers c11_st [0; 1; 2] None 1 [x] = POk (([0; 0]%nat, []), ([0; 2]%nat, [0; 2]%nat)).
 Proof. cbv zeta. vm_compute. reflexivity. Qed.
+
+(* more than one chunk: 9 pairs, one worker => n_per = 8, two chunks (8 + 1 pairs), merged *)
+Example c11_two_chunks_nonvacuous :
+  let pairs := repeat c11_x 9 in
+  length (chunk_list 9 (n_per_of 9 1) pairs) = 2%nat /\
+  find_markers c11_st [0; 1; 2; 3] None 1 pairs
+  = POk (([0; 1; 2; 3; 4; 5; 6; 7; 8; 9]%nat, [0; 0; 0; 0; 0; 0; 0; 0; 0]%nat),
+         ([0; 1; 2; 3; 4; 5; 6; 7; 8; 9]%nat, [2; 2; 2; 2; 2; 2; 2; 2; 2]%nat)).
+Proof. cbv zeta. split; vm_compute; reflexivity. Qed.
 
 Example c11_chunk_merge_nonvacuous :
   merge_sparse (map lookup_to_sparse (chunk_list 5 2 [[1; 4]; []; [0]; [2; 3; 5]; [7]]%nat)) 0
@@ -455,7 +541,7 @@ Proof. split; vm_compute; reflexivity. Qed.
 
 (* c11_sound with the FULL Holm-Bonferroni value (restricted-Holm equivalence composed in):
    recorded => the full Holm-corrected p-value is below p_th, for raw p-values in [0, 1] and p_th <= 1 *)
-Theorem c11_sound_full_holm : forall st mask x v up g,
+Theorem c11_sound_full_holm : forall st mask x v up g, pair_wf x ->
   Forall (fun q => 0 <= q <= pi_SP x) (pi_p x) -> pi_T x <= pi_SP x ->
   - st_S st < q1_min (st_th st) -> q1_min (st_th st) < q1_th (st_th st) ->
   score_differential_genes st mask x = POk (v, up) -> nth_error v g = Some true ->
@@ -463,5 +549,182 @@ Theorem c11_sound_full_holm : forall st mask x v up g,
   (exists h, nth_error (correct_ttest (pi_SP x) 0 (pi_p x)) g = Some h /\ h < pi_T x) /\
   in_list mask g /\
   exists sc, nth_error (pi_scores x) g = Some sc /\ crit (st_th st) (st_exact st) sc.
-Proof. exact sdg_sound_full_holm. Qed.
+Proof. exact sdg_sound_full_holm_wf. Qed.
 Print Assumptions c11_sound_full_holm.
+
+(* ------------------------------------------------------------------ *)
+(* FROM THE SUMMARY STATISTICS (audit defect 4).  Model/Welch.v computes, from the two rows
+   (n, sum, sumsq, ge1) of the statistics file (Model/Stats.v `summary`; sums over D, sums of squares
+   over D*D), what the code computes before score_differential_genes' tests:
+     mean = sum/max(1,n), var = (sumsq - sum^2/max(1,n))/max(1,n-1)              (aggregate_stats)
+     t^2, sign(t), nu exactly, with the IEEE cases explicit (tnu)                  (_calculate_tt_nu)
+     pij = ge1/max(1,n), q1 = max, qdiff = |pij1-pij2|/max (or /1), fold = |mean1-mean2|
+     p = p_of_cdf of the ORACLE value t.cdf(t, nu) (cdfs, one per gene), 0.5 if skipped or NaN
+   tied to the real functions on exact inputs by tags 1150-1154 (harness: welch_cases).
+   sdg_stats st mask D H lo hi T b cdfs s1 s2 = score_differential_genes on that pair. *)
+
+(* soundness in terms of the statistics: a recorded gene g has both clusters >= n_cells_min, the
+   restricted-Holm value of the Welch p-values below p_th, is in the list, and its penetrance /
+   fold numbers - which ARE (stat_crit: exact equations, no rounding) max(pij), |dpij|/max, |dmean|
+   of rows g - are on or above the floors (strictly above the thresholds in exact mode) *)
+Theorem c11_sound_from_stats : forall st mask D H lo hi T b cdfs s1 s2 v up g,
+  0 < D ->
+  - st_S st < q1_min (st_th st) -> q1_min (st_th st) < q1_th (st_th st) ->
+  sdg_stats st mask D H lo hi T b cdfs s1 s2 = POk (v, up) -> nth_error v g = Some true ->
+  st_n_min st <= s_n s1 /\ st_n_min st <= s_n s2 /\
+  exists l1 l2 c1 c2,
+    cstats_of s1 = POk l1 /\ cstats_of s2 = POk l2 /\ nth_error l1 g = Some c1 /\ nth_error l2 g = Some c2 /\
+    (exists a, nth_error (approx_correct_ttest (2 * H) T (welch_pvalues H lo hi b (welch_genes D l1 l2) cdfs)) g = Some a /\ a < T) /\
+    in_list mask g /\
+    (0 <= c_ge1 c1 -> 0 <= c_ge1 c2 -> stat_crit (st_th st) (st_exact st) D (st_S st) c1 c2).
+Proof. exact sdg_stats_sound. Qed.
+Print Assumptions c11_sound_from_stats.
+
+(* ... against the INDEPENDENT computation the property asks for: exact two-sided Welch p-values
+   (no gene skipped: b = None) and the FULL Holm-Bonferroni correction.  Premise (about scipy's values
+   at the skipped genes; evaluated numerically by the harness on every gene that occurs, class
+   c11-boring-premise-false-on-occurring-value): the CDF value c of every skipped gene has
+   2c >= p_th and 2(1-c) >= p_th.  It is false for nu above a few million (finding, see
+   c11_boring_needs_end_lo). *)
+Theorem c11_sound_exact_welch : forall st mask D H lo hi T b cdfs s1 s2 v up g,
+  0 < D -> 0 < H -> 0 <= lo <= H -> H <= hi <= 2 * H -> T <= 2 * H ->
+  - st_S st < q1_min (st_th st) -> q1_min (st_th st) < q1_th (st_th st) ->
+  (forall l1 l2 gc c, cstats_of s1 = POk l1 -> cstats_of s2 = POk l2 ->
+       In gc (combine (welch_genes D l1 l2) cdfs) -> gbrg b gc = true -> gcdf gc = Some c ->
+       T <= 2 * c /\ T <= 2 * (2 * H - c)) ->
+  sdg_stats st mask D H lo hi T b cdfs s1 s2 = POk (v, up) -> nth_error v g = Some true ->
+  exists l1 l2, cstats_of s1 = POk l1 /\ cstats_of s2 = POk l2 /\
+    exists h, nth_error (correct_ttest (2 * H) 0 (welch_pvalues H lo hi None (welch_genes D l1 l2) cdfs)) g = Some h /\ h < T.
+Proof. exact sdg_stats_sound_exact_welch. Qed.
+Print Assumptions c11_sound_exact_welch.
+
+(* the decision vectors of the two routes coincide (every gene, not only the recorded ones) *)
+Theorem c11_welch_route_decisions : forall H lo hi T b tn cdfs,
+  0 < H -> 0 <= lo <= H -> H <= hi <= 2 * H -> T <= 2 * H ->
+  (forall gc c, In gc (combine tn cdfs) -> gbrg b gc = true -> gcdf gc = Some c ->
+                T <= 2 * c /\ T <= 2 * (2 * H - c)) ->
+  map (fun v => v <? T) (approx_correct_ttest (2 * H) T (welch_pvalues H lo hi b tn cdfs))
+  = map (fun v => v <? T) (correct_ttest (2 * H) 0 (welch_pvalues H lo hi None tn cdfs)).
+Proof. exact welch_route_decisions. Qed.
+Print Assumptions c11_welch_route_decisions.
+
+(* completeness in terms of the statistics *)
+Theorem c11_complete_from_stats : forall st mask D H lo hi T b cdfs s1 s2 v up g l1 l2 c1 c2 q1 qd f,
+  0 < st_S st ->
+  sdg_stats st mask D H lo hi T b cdfs s1 s2 = POk (v, up) ->
+  st_n_min st <= s_n s1 -> st_n_min st <= s_n s2 ->
+  cstats_of s1 = POk l1 -> cstats_of s2 = POk l2 -> nth_error l1 g = Some c1 -> nth_error l2 g = Some c2 ->
+  (exists a, nth_error (approx_correct_ttest (2 * H) T (welch_pvalues H lo hi b (welch_genes D l1 l2) cdfs)) g = Some a /\ a < T) ->
+  in_list mask g ->
+  to_S (st_S st) (q1_r c1 c2) = Some q1 -> to_S (st_S st) (qdiff_r c1 c2) = Some qd ->
+  to_S (st_S st) (fold_r D c1 c2) = Some f ->
+  strictly_passes (st_th st) (q1, qd, f) ->
+  nth_error v g = Some true.
+Proof. exact sdg_stats_complete. Qed.
+Print Assumptions c11_complete_from_stats.
+
+Theorem c11_stats_pair_wf : forall D S H lo hi T b cdfs s1 s2 x,
+  stats_pair D S H lo hi T b cdfs s1 s2 = POk x -> pair_wf x.
+Proof. exact stats_pair_wf. Qed.
+Print Assumptions c11_stats_pair_wf.
+
+(* zero-variance genes (the quantifier names them): variance 0 in both clusters, any sizes >= 1 - the
+   code's denominator sqrt(0) is replaced by 1.0e-10 (t = dmean/1e-10) and nu_denom = 0 by 1.0, so
+   nu = 0; scipy's t.cdf(., df=0) is NaN, hence (c11_welch_p_nan) the p-value is 1 and the gene is
+   never recorded, however far apart the means are.  (Observed on the real code on every run.) *)
+Theorem c11_welch_zero_variance : forall D c1 c2,
+  1 <= c_n c1 -> 1 <= c_n c2 -> fst (var_r D c1) = 0 -> fst (var_r D c2) = 0 ->
+  exists nud, welch_gene D c1 c2 = TN_tiny (fst (mdiff_r D c1 c2)) (snd (mdiff_r D c1 c2)) 0 nud.
+Proof. exact welch_zero_variance. Qed.
+Print Assumptions c11_welch_zero_variance.
+Theorem c11_welch_p_nan : forall H lo hi b g, 0 < H -> lo <= H <= hi -> welch_p H lo hi b g None = 2 * H.
+Proof. exact welch_p_nan. Qed.
+Print Assumptions c11_welch_p_nan.
+(* a cluster without cells: var/0, nu = NaN: p-value 1 whatever the oracle says *)
+Theorem c11_welch_empty_cluster : forall D c1 c2 H lo hi b c, 0 < H -> lo <= H <= hi ->
+  c_n c1 <= 0 \/ c_n c2 <= 0 -> welch_p H lo hi b (welch_gene D c1 c2) c = 2 * H.
+Proof. exact welch_p_empty_cluster. Qed.
+Print Assumptions c11_welch_empty_cluster.
+
+(* swap symmetry, proved: exchanging the clusters negates t and keeps t^2 and nu; |fold|, q1, qdiff
+   are the same numbers; skipping is symmetric *)
+Theorem c11_welch_swap_statistic : forall D c1 c2, welch_gene D c2 c1 = tnu_neg (welch_gene D c1 c2).
+Proof. exact welch_gene_swap. Qed.
+Print Assumptions c11_welch_swap_statistic.
+Theorem c11_welch_swap_boring : forall bn bd g, tnu_boring bn bd (tnu_neg g) = tnu_boring bn bd g.
+Proof. exact tnu_boring_neg. Qed.
+Print Assumptions c11_welch_swap_boring.
+Theorem c11_welch_swap_scores : forall D c1 c2,
+  fold_r D c2 c1 = (fst (fold_r D c1 c2), snd (fold_r D c2 c1)) /\ snd (fold_r D c2 c1) = snd (fold_r D c1 c2) /\
+  req (q1_r c2 c1) (q1_r c1 c2) /\
+  (0 <= c_ge1 c1 -> 0 <= c_ge1 c2 -> req (qdiff_r c2 c1) (qdiff_r c1 c2)).
+Proof. exact welch_scores_swap. Qed.
+Print Assumptions c11_welch_swap_scores.
+(* the p-value: equal when the oracle is symmetric at this gene and neither value is clipped ... *)
+Theorem c11_welch_swap_p : forall H lo hi c, 0 < H -> lo <= 2 * H - hi -> 2 * H - hi <= c <= hi ->
+  p_of_cdf H lo hi (Some (2 * H - c)) = p_of_cdf H lo hi (Some c).
+Proof. exact p_of_cdf_swap. Qed.
+Print Assumptions c11_welch_swap_p.
+(* ... and NOT in general: the clip interval [eps, ceil] is not symmetric (real values: 2.78e-139 one
+   way round, 2.22e-16 the other).  Both are far below any admissible p_th >= 1e-11 unless there are
+   > 45000 genes, but the scores -log(p) differ. *)
+Example c11_welch_swap_p_clip_caveat :
+  p_of_cdf 32 1 60 (Some 2) = 4 /\ p_of_cdf 32 1 60 (Some (2 * 32 - 2)) = 8.
+Proof. exact welch_p_swap_clip_differs. Qed.
+
+(* a concrete statistics file (D = 4): two clusters of 4 cells, gene 0 a marker (8 +- 0.5 against
+   0.25 +- 0.25), gene 1 with ZERO VARIANCE in both clusters (8 against 0: nu = 0, CDF NaN, never
+   recorded), gene 2 identical in both; and a ONE-CELL cluster (var = 0, 0/0 -> nu_denom = 1.0) *)
+Definition c11_sa := mk_summary 4 [128; 128; 1] [4104; 4096; 1] [4; 4; 1] [4; 4; 0] [4; 4; 0].
+Definition c11_sb := mk_summary 4 [4; 0; 1] [8; 0; 1] [2; 0; 1] [0; 0; 0] [0; 0; 0].
+Definition c11_s1 := mk_summary 1 [32; 32; 0] [1024; 1024; 0] [1; 1; 0] [1; 1; 0] [1; 1; 0].
+Example c11_from_stats_nonvacuous :
+  (exists x, stats_pair 4 1024 512 1 1023 10 None [Some 1023; None; Some 512] c11_sa c11_sb = POk x /\
+     pi_p x = [2; 1024; 1024] /\ pi_scores x = [(1024, 1024, 7936); (1024, 1024, 8192); (0, 0, 0)] /\
+     pi_mean1 x = [8192; 8192; 64] /\ pi_mean2 x = [256; 0; 64]) /\
+  sdg_stats c11_st None 4 512 1 1023 10 (Some (5, 2)) [Some 1023; None; Some 512] c11_sa c11_sb
+  = POk ([true; false; false], [false; false; false]) /\
+  (match cstats_of c11_sa, cstats_of c11_sb with
+   | POk a, POk b => map (fun g => match g with TN s _ _ _ _ => s | TN_tiny dn _ nun _ => 100 + nun | TN_nan => -100 end)
+                         (welch_genes 4 a b)
+   | _, _ => [] end) = [1; 100; 0] /\
+  (match cstats_of c11_s1, cstats_of c11_sb with
+   | POk a, POk b => map (fun g => match g with TN s _ _ nun _ => s * nun | TN_tiny dn _ nun _ => 100 + nun | TN_nan => -100 end)
+                         (welch_genes 4 a b)
+   | _, _ => [] end) = [65536; 100; - 2304].
+Proof.
+  split; [eexists; split; [vm_compute; reflexivity|]; repeat split|].
+  split; [vm_compute; reflexivity|]. split; vm_compute; reflexivity.
+Qed.
+
+(* ------------------------------------------------------------------ *)
+(* the gene-major tables: the pair-major table of ANY per-pair gene lists with indices below n_genes
+   is a well-formed compressed matrix (C13's wf_comp), so transpose_sparse_matrix_on_disk (C13's model,
+   every elements_at_a_time, chunk sizes >= 1) returns the transpose specification: a well-formed
+   table with n_genes rows, as many entries, storing (g, j) iff the pair-major table stores (j, g) *)
+Theorem c11_tables_transpose : forall rows n_genes E L Lc,
+  Forall (Forall (fun g => (g < n_genes)%nat)) rows -> (1 <= L)%nat -> (1 <= Lc)%nat ->
+  exists t, transpose (table_of rows) false n_genes None E L Lc = Ok t /\
+    let out := t_out t in
+    out = transpose_spec (table_of rows) false n_genes None /\
+    hd 1%nat (ptr out) = 0%nat /\ mono (ptr out) /\ length (ptr out) = S n_genes /\
+    last (ptr out) 0%nat = length (idx out) /\
+    length (idx out) = length (concat rows) /\
+    forall g j, (g < n_genes)%nat -> (j < length rows)%nat -> stored out g j = stored (table_of rows) j g.
+Proof. exact tables_transpose. Qed.
+Print Assumptions c11_tables_transpose.
+
+(* its hypothesis is met by the lists the model records: indices below the length of the validity mask *)
+Theorem c11_up_down_in_range : forall v u,
+  Forall (fun g => (g < length v)%nat) (fst (up_down (v, u))) /\ Forall (fun g => (g < length v)%nat) (snd (up_down (v, u))).
+Proof. exact up_down_lt. Qed.
+Print Assumptions c11_up_down_in_range.
+
+Example c11_tables_transpose_nonvacuous :
+  let rows := [[1; 4]; []; [0]; [2; 3; 5]; [4]]%nat in
+  Forall (Forall (fun g => (g < 6)%nat)) rows /\
+  (exists t, transpose (table_of rows) false 6 None 4 2 3 = Ok t /\
+     ptr (t_out t) = [0; 1; 2; 3; 4; 6; 7]%nat /\ idx (t_out t) = [2; 0; 3; 3; 0; 4; 3]%nat).
+Proof.
+  cbv zeta. split; [repeat constructor|]. eexists. split; [vm_compute; reflexivity|]. split; reflexivity.
+Qed.
